@@ -1,15 +1,107 @@
-(* Property C19 — no response from the target can abort or crash the run. Statements only. *)
+(* Property C19 — no response from the target can abort or crash the run. Statements only; proofs in
+   Proofs/RobustProofs.v.  Model: Model/Robust.v (response handling of BaseGun.Shoot, ScenarioGun.shoot/shootStep and
+   instance.Run over an abstract response; the scenario postprocessors with Go's partial operations explicit). *)
 From Coq Require Import List ZArith NArith Bool.
 From PV Require Import Model.Robust Proofs.RobustProofs.
 Import ListNotations.
 Local Open Scope Z_scope.
 
-(* C19_substr_safe (full statement): forall st inputs, Forall (fun o => o <> Panicked) (substr_seq st inputs).
-   FALSE of the code as it is: *)
-Theorem C19_substr_safe_refuted : exists st s, fst (substr_call st s) = Panicked.
-Proof. exact substr_refuted. Qed.
-Print Assumptions C19_substr_safe_refuted.
+(* var/header substr: for every configured (start, end) — any integers — and every header value, every call in any
+   sequence of calls of one closure returns a value (no slice-bounds panic); the captured bounds never change, so each
+   result is the one the configured bounds give for that call's value alone. *)
+Theorem C19_substr_safe : forall st inputs,
+  Forall (fun o => o <> Panicked) (substr_seq st inputs) /\
+  Forall2 (fun s o => o = fst (substr_call st s) /\ exists r, o = Done r) inputs (substr_seq st inputs).
+Proof. intros st inputs. split; [apply substr_seq_no_panic|apply substr_seq_safe]. Qed.
+Print Assumptions C19_substr_safe.
 
-Theorem C19_xpath_safe_refuted : exists k, xpath_values true k = Panicked.
-Proof. exact xpath_refuted. Qed.
-Print Assumptions C19_xpath_safe_refuted.
+(* and what it returns is a contiguous piece of the value *)
+Theorem C19_substr_is_slice : forall st s, exists r pre post,
+  substr_call st s = (Done r, st) /\ s = pre ++ r ++ post.
+Proof. exact substr_is_slice. Qed.
+Print Assumptions C19_substr_is_slice.
+
+(* every modelled postprocessor, for every configuration and every response view: never a panic
+   (var/header with any modifier chain incl. unparsable ones, assert/response with any size/op,
+   var/xpath whatever kind of value the expression has, var/jsonpath whatever the libraries answer) *)
+Theorem C19_postprocessors_never_panic : forall p, pp_eval p <> Panicked.
+Proof. exact pp_eval_not_panic. Qed.
+Print Assumptions C19_postprocessors_never_panic.
+
+Theorem C19_var_header_outcome : forall chain value,
+  (parse_chain chain = None /\ var_header_one chain value = Failed) \/
+  (exists ms, parse_chain chain = Some ms /\ exists v, var_header_one chain value = Done v).
+Proof. exact var_header_one_spec. Qed.
+Print Assumptions C19_var_header_outcome.
+
+Theorem C19_grpc_assert_never_panics : forall st p code out, grpc_assert st p code out <> Panicked.
+Proof. exact grpc_assert_not_panic. Qed.
+Print Assumptions C19_grpc_assert_never_panics.
+
+(* BaseGun.Shoot is total: for every abstract response (any status, body read ok or failing, connection ok /
+   refused / reset / timeout / eof / protocol error) a bound gun without a failing Connect hook returns with exactly
+   one sample: the received status without error for a clean exchange, an error otherwise (with the received status
+   whenever a response arrived). http2 guns: under the documented condition only (target speaks HTTP/2). *)
+Theorem C19_gun_total : forall c r,
+  bc_bound c = true -> bc_connect c <> Some false -> (bc_http2 c = true -> rs_h2 r = true) ->
+  exists sm, base_shoot c false r = Returned [sm] /\
+    (clean r = true -> sm = {| sm_code := rs_status r; sm_err := false |}) /\
+    (clean r = false -> sm_err sm = true) /\
+    (conn_ok (rs_conn r) = true -> sm_code sm = rs_status r).
+Proof. exact base_shoot_total. Qed.
+Print Assumptions C19_gun_total.
+
+(* the only panic leaves of Shoot: a gun that was never bound, or the documented-fatal HTTP/2 condition *)
+Theorem C19_gun_panic_only_documented : forall c inv r l, base_shoot c inv r = ShotPanic l ->
+  bc_bound c = false \/ (bc_http2 c = true /\ rs_h2 r = false).
+Proof. exact base_shoot_panic_only. Qed.
+Print Assumptions C19_gun_panic_only_documented.
+
+(* ScenarioGun.shoot: whatever the responses, preprocessor/template/prepare results and postprocessor results
+   (none of which panics), the shot returns; it reports exactly one sample per executed step — steps run up to and
+   including the first failing one — each either error-free or the (0, error) sample of reportErr. *)
+Theorem C19_scenario_total : forall steps, Forall pps_safe steps ->
+  exists l, scenario_shoot true steps = Returned l /\ length l = executed steps /\ Forall sample_ok_or_failure l.
+Proof. exact scenario_shoot_total. Qed.
+Print Assumptions C19_scenario_total.
+
+(* ... in particular with the modelled postprocessors in any configuration *)
+Theorem C19_scenario_total_modelled : forall (specs : list (bool * bool * bool * response * list pp_cfg)),
+  let steps := map (fun '(pre, tmpl, prep, r, pps) => mk_step pre tmpl prep r pps) specs in
+  exists l, scenario_shoot true steps = Returned l /\ length l = executed steps /\ Forall sample_ok_or_failure l.
+Proof. exact scenario_total_modelled. Qed.
+Print Assumptions C19_scenario_total_modelled.
+
+(* the instance goes on with the next ammo: over any history of responses an instance with an http gun (not http2)
+   never fails and reports one sample per ammo; with a scenario gun one sample per executed step *)
+Theorem C19_instance_survives_http : forall c rs,
+  bc_bound c = true -> bc_connect c <> Some false -> bc_http2 c = false ->
+  snd (instance_run (map (base_shoot c false) rs)) = false /\
+  length (fst (instance_run (map (base_shoot c false) rs))) = length rs.
+Proof. exact instance_http_survives. Qed.
+Print Assumptions C19_instance_survives_http.
+
+Theorem C19_instance_survives_scenario : forall scenarios,
+  Forall (Forall pps_safe) scenarios ->
+  snd (instance_run (map (scenario_shoot true) scenarios)) = false /\
+  length (fst (instance_run (map (scenario_shoot true) scenarios))) = fold_right (fun st n => (executed st + n)%nat) O scenarios.
+Proof. exact instance_scenario_survives. Qed.
+Print Assumptions C19_instance_survives_scenario.
+
+(* non-vacuity / the inputs of DESIGN.md section 6 #24 on the repaired closure *)
+Example C19_example_substr :
+  substr_seq {| sb_start := -10; sb_end := 0 |} [[97%N; 98%N; 99%N]] = [Done [97%N; 98%N; 99%N]] /\
+  substr_seq {| sb_start := 5; sb_end := 8 |} [[97%N; 98%N; 99%N]] = [Done []] /\
+  substr_seq {| sb_start := -1; sb_end := 0 |} [[97%N; 98%N; 99%N]; [97%N; 98%N; 99%N; 100%N; 101%N; 102%N]] = [Done [99%N]; Done [102%N]] /\
+  substr_seq {| sb_start := 1; sb_end := 3 |} [[97%N; 98%N; 99%N; 100%N]] = [Done [98%N; 99%N]].
+Proof. vm_compute. repeat split. Qed.
+
+Example C19_example_scenario :
+  let ok := {| rs_conn := ConnOk; rs_status := 200; rs_body_ok := true; rs_h2 := false |} in
+  let cut := {| rs_conn := ConnOk; rs_status := 200; rs_body_ok := false; rs_h2 := false |} in
+  scenario_shoot true [mk_step true true true ok [PPHeader [([SSubstr [[53%N]; [56%N]]], [97%N; 98%N; 99%N])]; PPXpath [(true, XNumber)]];
+                       mk_step true true true ok []]
+  = Returned [{| sm_code := 0; sm_err := true |}] /\
+  scenario_shoot true [mk_step true true true ok []; mk_step true true true cut []; mk_step true true true ok []]
+  = Returned [{| sm_code := 200; sm_err := false |}; {| sm_code := 0; sm_err := true |}].
+Proof. vm_compute. split; reflexivity. Qed.
